@@ -130,6 +130,12 @@ def eval_layout(case):
         df0['amp_fraction'] = compute_amp_fraction(df0)
         df0['amp_consistency'] = compute_amp_consistency(df0)
         df0['period_consistency'] = compute_period_consistency(df0)
+        # the row index as earlier steps may have left it: default, offset labels (limit_df / slicing), duplicates (concat)
+        ik = (sum(c for c, m in case) + n + (centre == 'trough')) % 3
+        if ik == 1:
+            df0.index = range(5, 5 + n)
+        elif ik == 2:
+            df0.index = [i % 2 for i in range(n)]
         for ti, thr in enumerate(THR_MENU):
             df = detect_bursts_cycles(df0.copy(), **thr)
             for r in REDUCTIONS:
@@ -138,7 +144,7 @@ def eval_layout(case):
                     continue
                 before = df.copy()
                 fp = fingerprint(df)
-                sgn = {'site': 'recompute_edges', 'centre': centre}
+                sgn = {'site': 'recompute_edges', 'centre': centre, 'index': ('default', 'offset', 'duplicate')[ik]}
                 try:
                     out = recompute_edges(df, dict(thr2))
                 except Exception as e:      # noqa
@@ -205,6 +211,32 @@ def eval_pipeline(case):
                 return VIOL({'site': 'Bycycle.recompute_edges', 'centre': centre},
                             'Bycycle.recompute_edges(%r) differs from the functional edge recomputation: %s' % (r, dd),
                             observed={'word': w, 'thr': thr})
+            # the same call once more on the same object: thresholds are lowered by r again from the SAME settings
+            bm.recompute_edges(None if r == 0 else r)
+            nev += 1
+            dd = diff_tables(bm.df_features, recompute_edges(out, dict(thr2)))
+            if dd or bm.thresholds != thr:
+                return VIOL({'site': 'Bycycle.recompute_edges', 'centre': centre, 'call': 'second'},
+                            'a second Bycycle.recompute_edges(%r) differs from the functional result with the same lowered thresholds '
+                            '(or changed the object\'s thresholds): %s' % (r, dd), observed={'word': w, 'thr': thr})
+        if centre == 'peak' and sum(map(ord, w)) % 8 == 0 and thr is PIPE_THR[-1]:
+            # a group: every model must be re-labelled with the thresholds lowered ONCE
+            from bycycle import BycycleGroup
+            sigs = np.array([sig, sig[::-1].copy(), -sig])
+            bg = BycycleGroup(thresholds=dict(thr))
+            bg.fit(sigs, 64, (6, 14), n_jobs=1)
+            before = [m.df_features.copy() for m in bg.models]
+            bg.recompute_edges(.1)
+            red = lowered(thr, .1)
+            for i, m in enumerate(bg.models):
+                nev += 1
+                if not before[i]['is_burst'].any():
+                    continue
+                dd = diff_tables(m.df_features, recompute_edges(before[i], dict(red)))
+                if dd:
+                    return VIOL({'site': 'BycycleGroup.recompute_edges', 'model': i},
+                                'model %d after BycycleGroup.recompute_edges(.1) differs from the functional result: %s' % (i, dd),
+                                observed={'word': w, 'thr': thr})
     if nev == 0:
         return SKIP('no burst')
     return OK(outcome=(w, centre, tuple(outs)), nontrivial=nt, evals=nev)
